@@ -26,8 +26,8 @@ theorem setFV_allowed_partial (c : Ctx) (r : Req) (s : FV) (hwf : s.WF) (hd : de
   | periphAdd => simp [setFV, Allowed, achieves, frame]
   | periphRemove => simp [setFV, Allowed, achieves, frame]
   | transits m keep =>
-    obtain ⟨mdt⟩ := c
-    cases mdt <;> cases keep <;> cases zo <;> cases d <;> cases l <;> cases b <;>
+    obtain ⟨mdt, mat⟩ := c
+    cases mdt <;> cases mat <;> cases keep <;> cases zo <;> cases d <;> cases l <;> cases b <;>
       by_cases h0 : n = 0 <;> by_cases hm0 : m = 0 <;> by_cases hm1 : m = 1 <;> by_cases hnm : n = m <;>
       simp_all [setFV, setTransits, transitsTail, defectTransitsTail, FV.abs, FV.chain, Allowed, achieves, frame, defectOf, FV.WF, mayRefuse] <;>
       omega
@@ -36,8 +36,8 @@ theorem setFV_allowed_partial (c : Ctx) (r : Req) (s : FV) (hwf : s.WF) (hd : de
 
 
 /-- Non-vacuity: a non-trivial request outside every defect class. -/
-example : (FV.mk false 0 true 2 .mm true true).WF ∧ defectOf ⟨false⟩ (.transits 3 true) ⟨false, 0, true, 2, .mm, false, true⟩ = none
-    ∧ setFV ⟨false⟩ (.transits 3 true) ⟨false, 0, true, 2, .mm, false, true⟩ = .ok ⟨false, 3, true, 2, .mm, false, true⟩ := by decide
+example : (FV.mk false 0 true 2 .mm true true).WF ∧ defectOf ⟨false, false⟩ (.transits 3 true) ⟨false, 0, true, 2, .mm, false, true⟩ = none
+    ∧ setFV ⟨false, false⟩ (.transits 3 true) ⟨false, 0, true, 2, .mm, false, true⟩ = .ok ⟨false, 3, true, 2, .mm, false, true⟩ := by decide
 
 /-- The full statement (without the side-condition) is false of the code: every defect class has a
     well-formed witness on which `setFV` — the mirror of the code — is not what the statement allows. -/
@@ -45,18 +45,18 @@ theorem setFV_allowed_witness :
     ∀ c : DefectClass, ∃ x r s, s.WF ∧ defectOf x r s = some c ∧ Allowed r s (setFV x r s) = false := by
   intro c
   cases c
-  · exact ⟨⟨false⟩, .transits 3 true, ⟨false, 0, true, 0, .fo, true, false⟩, by decide⟩
-  · exact ⟨⟨false⟩, .transits 0 true, ⟨false, 3, true, 0, .fo, false, true⟩, by decide⟩
-  · exact ⟨⟨true⟩, .transits 2 false, ⟨false, 1, true, 0, .fo, false, false⟩, by decide⟩
-  · exact ⟨⟨false⟩, .transits 1 true, ⟨true, 0, false, 0, .fo, false, false⟩, by decide⟩
-  · exact ⟨⟨false⟩, .abs .fo, ⟨true, 2, true, 0, .fo, false, false⟩, by decide⟩
-  · exact ⟨⟨false⟩, .abs .fo, ⟨true, 0, true, 0, .fo, true, false⟩, by decide⟩
-  · exact ⟨⟨false⟩, .abs .zo, ⟨false, 3, true, 0, .fo, false, false⟩, by decide⟩
-  · exact ⟨⟨false⟩, .abs .seq, ⟨false, 2, true, 0, .fo, false, false⟩, by decide⟩
-  · exact ⟨⟨false⟩, .abs .seq, ⟨true, 0, false, 0, .fo, false, true⟩, by decide⟩
-  · exact ⟨⟨false⟩, .abs .inst, ⟨false, 2, false, 0, .fo, false, false⟩, by decide⟩
-  · exact ⟨⟨false⟩, .abs .inst, ⟨true, 0, true, 0, .fo, false, false⟩, by decide⟩
-  · exact ⟨⟨false⟩, .abs .inst, ⟨false, 0, true, 0, .fo, false, true⟩, by decide⟩
+  · exact ⟨⟨false, false⟩, .transits 3 true, ⟨false, 0, true, 0, .fo, true, false⟩, by decide⟩
+  · exact ⟨⟨false, false⟩, .transits 0 true, ⟨false, 3, true, 0, .fo, false, true⟩, by decide⟩
+  · exact ⟨⟨true, false⟩, .transits 2 false, ⟨false, 1, true, 0, .fo, false, false⟩, by decide⟩
+  · exact ⟨⟨false, false⟩, .transits 1 true, ⟨true, 0, false, 0, .fo, false, false⟩, by decide⟩
+  · exact ⟨⟨false, false⟩, .abs .fo, ⟨true, 2, true, 0, .fo, false, false⟩, by decide⟩
+  · exact ⟨⟨false, false⟩, .abs .fo, ⟨true, 0, true, 0, .fo, true, false⟩, by decide⟩
+  · exact ⟨⟨false, false⟩, .abs .zo, ⟨false, 3, true, 0, .fo, false, false⟩, by decide⟩
+  · exact ⟨⟨false, false⟩, .abs .seq, ⟨false, 2, true, 0, .fo, false, false⟩, by decide⟩
+  · exact ⟨⟨false, false⟩, .abs .seq, ⟨true, 0, false, 0, .fo, false, true⟩, by decide⟩
+  · exact ⟨⟨false, false⟩, .abs .inst, ⟨false, 2, false, 0, .fo, false, false⟩, by decide⟩
+  · exact ⟨⟨false, false⟩, .abs .inst, ⟨true, 0, true, 0, .fo, false, false⟩, by decide⟩
+  · exact ⟨⟨false, false⟩, .abs .inst, ⟨false, 0, true, 0, .fo, false, true⟩, by decide⟩
 
 /-- Totality: outside the defect classes a request either succeeds or is refused for the documented
     reason (one transit compartment without a depot behind it); nothing else happens. -/
@@ -79,8 +79,8 @@ theorem setFV_refuse_documented (c : Ctx) (r : Req) (s : FV) (h : setFV c r s = 
     cases a <;> cases zo <;> cases d <;> by_cases h0 : n = 0 <;>
       simp_all [setFV, setAbs, FV.abs, FV.chain]
   | transits m keep =>
-    obtain ⟨mdt⟩ := c
-    cases mdt <;> cases keep <;> cases zo <;> cases d <;> cases l <;>
+    obtain ⟨mdt, mat⟩ := c
+    cases mdt <;> cases mat <;> cases keep <;> cases zo <;> cases d <;> cases l <;>
       by_cases h0 : n = 0 <;> by_cases hm0 : m = 0 <;> by_cases hm1 : m = 1 <;> by_cases hnm : n = m <;>
       simp_all [setFV, setTransits, transitsTail, defectTransitsTail, FV.abs, FV.chain, mayRefuse] <;> omega
   | _ => simp [setFV] at h
@@ -99,8 +99,8 @@ theorem setFV_frame_elim_periph (c : Ctx) (r : Req) (s s' : FV) (h : setFV c r s
     cases a <;> cases zo <;> cases d <;> by_cases h0 : n = 0 <;>
       simp_all [setFV, setAbs, FV.abs, FV.chain] <;> (subst h; simp)
   | transits m keep =>
-    obtain ⟨mdt⟩ := c
-    cases mdt <;> cases keep <;> cases zo <;> cases d <;> cases l <;>
+    obtain ⟨mdt, mat⟩ := c
+    cases mdt <;> cases mat <;> cases keep <;> cases zo <;> cases d <;> cases l <;>
       by_cases h0 : n = 0 <;> by_cases hm0 : m = 0 <;> by_cases hm1 : m = 1 <;> by_cases hnm : n = m <;>
       simp_all [setFV, setTransits, transitsTail, defectTransitsTail, FV.abs, FV.chain] <;> (try subst h) <;> simp_all
   | elim e' => simp [setFV] at h; subst h; simp
@@ -118,8 +118,8 @@ theorem setFV_wf (c : Ctx) (r : Req) (s s' : FV) (hwf : s.WF) (h : setFV c r s =
     cases a <;> cases zo <;> cases d <;> by_cases h0 : n = 0 <;>
       simp_all [setFV, setAbs, FV.abs, FV.chain, FV.WF] <;> (subst h; simp_all)
   | transits m keep =>
-    obtain ⟨mdt⟩ := c
-    cases mdt <;> cases keep <;> cases zo <;> cases d <;> cases l <;>
+    obtain ⟨mdt, mat⟩ := c
+    cases mdt <;> cases mat <;> cases keep <;> cases zo <;> cases d <;> cases l <;>
       by_cases h0 : n = 0 <;> by_cases hm0 : m = 0 <;> by_cases hm1 : m = 1 <;> by_cases hnm : n = m <;>
       simp_all [setFV, setTransits, transitsTail, defectTransitsTail, FV.abs, FV.chain, FV.WF] <;> (try subst h) <;> simp_all <;> omega
   | elim e' => simp [setFV] at h; subst h; simpa [FV.WF] using hwf
@@ -140,11 +140,35 @@ theorem setFV_idempotent_partial (c c' : Ctx) (r : Req) (s s' : FV) (hwf : s.WF)
     cases a <;> cases zo <;> cases d <;> cases l <;> cases b <;> by_cases h0 : n = 0 <;>
       simp_all [setFV, setAbs, FV.abs, FV.chain, FV.WF, defectOf] <;> (subst h; simp_all [FV.abs, FV.chain])
   | transits m keep =>
-    obtain ⟨mdt⟩ := c
-    cases mdt <;> cases keep <;> cases zo <;> cases d <;> cases l <;> cases b <;>
-      by_cases h0 : n = 0 <;> by_cases hm0 : m = 0 <;> by_cases hm1 : m = 1 <;> by_cases hnm : n = m <;>
-      simp_all [setFV, setTransits, transitsTail, defectTransitsTail, FV.abs, FV.chain, FV.WF, defectOf] <;> (try subst h) <;>
-      simp_all [setTransits, transitsTail, defectTransitsTail, FV.abs, FV.chain] <;> omega
+    -- the first call ends in `transitsTail … = ok s'`, so `s'` has m transits, no lag time, and no depot when
+    -- keep_depot=False; the second call therefore takes the first branch of the tail
+    have key : ∀ (t : FV) (hl : Bool), transitsTail t m hl = .ok s' → t.lag = false →
+        (keep = false → t.depot = false) → setFV c' (.transits m keep) s' = .ok s' := by
+      intro t hl ht htl htd
+      obtain ⟨h1, h2, h3⟩ := transitsTail_ok t m hl s' ht
+      have hl' : s'.lag = false := by rw [h3, htl]
+      have hcond : (!keep && s'.depot) = false := by
+        cases keep with
+        | true => simp
+        | false => simp [h2, htd rfl]
+      have hs' : ({ s' with lag := false } : FV) = s' := by cases s'; simp_all
+      simp only [setFV, setTransits, hs', hcond, Bool.false_eq_true, if_false]
+      exact transitsTail_self s' m _ h1
+    simp only [setFV, setTransits] at h
+    split at h
+    · split at h
+      · cases h
+      · split at h
+        · cases h
+        · split at h
+          · cases h
+          · split at h
+            · exact key _ _ h rfl (fun _ => rfl)
+            · exact key _ _ h rfl (fun _ => rfl)
+    · rename_i hc
+      refine key _ _ h rfl (fun hk => ?_)
+      subst hk
+      simpa using hc
   | elim e' => simp [setFV] at h; subst h; simp [setFV]
   | periph k' => simp [setFV] at h; subst h; simp [setFV]
   | periphAdd => simp at hr
@@ -157,7 +181,7 @@ theorem setFV_idempotent_partial (c c' : Ctx) (r : Req) (s s' : FV) (hwf : s.WF)
     different outcome (on the real code it raises NetworkXUnfeasible). -/
 theorem setFV_idempotent_witness :
     ∃ c r s, s.WF ∧ setFV c r s ≠ .refuse ∧ (∀ s', setFV c r s = .ok s' → setFV c r s' ≠ .ok s') ∧ defectOf c r s ≠ none :=
-  ⟨⟨false⟩, .transits 1 true, ⟨true, 0, false, 0, .fo, false, false⟩, by decide, by decide, by simp [setFV, setTransits, transitsTail, defectTransitsTail, FV.abs, FV.chain], by decide⟩
+  ⟨⟨false, false⟩, .transits 1 true, ⟨true, 0, false, 0, .fo, false, false⟩, by decide, by decide, by simp [setFV, setTransits, transitsTail, defectTransitsTail, FV.abs, FV.chain], by decide⟩
 
 set_option maxHeartbeats 1600000 in
 /-- Undoing an added feature restores the feature vector: for a request that adds structure, outside
@@ -176,8 +200,8 @@ theorem undo_restores_partial (c c' : Ctx) (r : Req) (s s' : FV) (hwf : s.WF) (h
       simp_all [setFV, setAbs, FV.abs, FV.chain, FV.WF, defectOf, undo, additive] <;>
       (subst h; simp_all [setAbs, FV.abs, FV.chain, defectOf])
   | transits m keep =>
-    obtain ⟨mdt⟩ := c
-    cases mdt <;> cases keep <;> cases zo <;> cases d <;> cases l <;> cases b <;>
+    obtain ⟨mdt, mat⟩ := c
+    cases mdt <;> cases mat <;> cases keep <;> cases zo <;> cases d <;> cases l <;> cases b <;>
       by_cases h0 : n = 0 <;> by_cases hm0 : m = 0 <;> by_cases hm1 : m = 1 <;> by_cases hnm : n = m <;>
       by_cases hn1 : n = 1 <;>
       simp_all [setFV, setTransits, transitsTail, defectTransitsTail, FV.abs, FV.chain, FV.WF, defectOf, undo, additive] <;> (try subst h) <;>
@@ -191,17 +215,17 @@ theorem undo_restores_partial (c c' : Ctx) (r : Req) (s s' : FV) (hwf : s.WF) (h
 
 /-- Non-vacuity of `undo_restores_partial`: three transits in front of a depot, then back. -/
 example : let s : FV := ⟨false, 0, true, 1, .mix, false, true⟩
-    additive (.transits 3 true) s = true ∧ defectOf ⟨false⟩ (.transits 3 true) s = none ∧
-    setFV ⟨false⟩ (.transits 3 true) s = .ok ⟨false, 3, true, 1, .mix, false, true⟩ ∧
+    additive (.transits 3 true) s = true ∧ defectOf ⟨false, false⟩ (.transits 3 true) s = none ∧
+    setFV ⟨false, false⟩ (.transits 3 true) s = .ok ⟨false, 3, true, 1, .mix, false, true⟩ ∧
     undo (.transits 3 true) s = .transits 0 true ∧
-    defectOf ⟨true⟩ (.transits 0 true) ⟨false, 3, true, 1, .mix, false, true⟩ = some .transitsDropBio := by decide
+    defectOf ⟨true, false⟩ (.transits 0 true) ⟨false, 3, true, 1, .mix, false, true⟩ = some .transitsDropBio := by decide
 
 /-- … and the full undo statement is false of the code: with a bioavailability the way back loses it. -/
 theorem undo_restores_witness :
     ∃ c r s s', s.WF ∧ additive r s = true ∧ defectOf c r s = none ∧ setFV c r s = .ok s' ∧
       ∀ c', setFV c' (undo r s) s' ≠ .ok s :=
-  ⟨⟨false⟩, .transits 3 true, ⟨false, 0, true, 0, .fo, false, true⟩, ⟨false, 3, true, 0, .fo, false, true⟩,
-    by decide, by decide, by decide, by decide, by intro c'; cases c' with | mk b => cases b <;> decide⟩
+  ⟨⟨false, false⟩, .transits 3 true, ⟨false, 0, true, 0, .fo, false, true⟩, ⟨false, 3, true, 0, .fo, false, true⟩,
+    by decide, by decide, by decide, by decide, by intro c'; cases c' with | mk b b' => cases b <;> cases b' <;> decide⟩
 
 /-! ## the graph classifiers on the canonical family (every n, every k) -/
 
@@ -228,6 +252,97 @@ example : detect (canon ⟨true, 0, false, 1, .fo, true, false⟩) = some ⟨tru
 example : detect (canon ⟨false, 0, true, 0, .mm, false, false⟩) = some ⟨false, 0, true, 0, .mm, false, false⟩ := by decide
 /-- "One transit directly into central is a depot": the non-well-formed vector is detected as its normal form. -/
 example : detect (canon ⟨false, 1, false, 0, .fo, false, false⟩) = some ⟨false, 0, true, 0, .fo, false, false⟩ := by decide
+
+/-! ## the parameter ledger: nothing without influence is left behind -/
+
+/-- A removing setter whose `symbols` cover everything the removed sites read leaves no parameter behind
+    that was not already without influence — for every model (any sites, any parameters). -/
+theorem removeSites_no_new_dead (m : PModel) (gone symbols : List Nat)
+    (hcover : ∀ s ∈ m.sites, s.id ∈ gone → ∀ p ∈ s.reads, p ∈ symbols) :
+    ∀ p ∈ (m.removeSites gone symbols).dead, p ∈ m.dead := by
+  intro p hp
+  simp only [PModel.dead, PModel.removeSites, List.mem_filter] at hp ⊢
+  obtain ⟨⟨hpm, hkeep⟩, hdead⟩ := hp
+  refine ⟨hpm, ?_⟩
+  -- `p` is read by no remaining site; if a removed site read it, it is in `symbols`, so it would have gone
+  cases hr : PModel.readBy m.sites p with
+  | false => rfl
+  | true =>
+    exfalso
+    simp only [PModel.readBy, List.any_eq_true] at hr
+    obtain ⟨s, hs, hps⟩ := hr
+    have hps : p ∈ s.reads := by simpa using hps
+    have hnot : PModel.readBy (m.sites.filter (fun s => s.id ∉ gone)) p = false := by simpa using hdead
+    by_cases hg : s.id ∈ gone
+    · have : p ∈ symbols := hcover s hs hg p hps
+      rcases (of_decide_eq_true hkeep) with h | h
+      · exact h this
+      · rw [hnot] at h; cases h
+    · have : PModel.readBy (m.sites.filter (fun s => s.id ∉ gone)) p = true := by
+        simp only [PModel.readBy, List.any_eq_true]
+        exact ⟨s, by simp [List.mem_filter, hs, hg], by simpa using hps⟩
+      rw [this] at hnot; exact absurd hnot (by simp)
+
+/-- … in particular when the setter takes `symbols` from all the sites it removes. -/
+theorem removeByCode_no_new_dead (m : PModel) (gone srcs : List Nat) (h : ∀ i ∈ gone, i ∈ srcs) :
+    ∀ p ∈ (m.removeByCode gone srcs).dead, p ∈ m.dead := by
+  apply removeSites_no_new_dead
+  intro s hs hg p hp
+  simp only [PModel.symbolsOf, List.mem_flatMap, List.mem_filter]
+  exact ⟨s, ⟨hs, by simpa using h _ hg⟩, hp⟩
+
+/-- `remove_peripheral_compartment` as the source has it (clean-up table regenerated on every run) takes the
+    symbols of both flows of the removed compartment … -/
+theorem removePeripheral_symbols_cover (toP fromP : Nat) :
+    ∀ i ∈ [toP, fromP], i ∈ removePeripheralSrcs toP fromP := by
+  intro i hi
+  simp only [removePeripheralSrcs, removePeripheralSymbolFlows, removePeripheralRemoved] at *
+  simp at hi
+  rcases hi with h | h <;> subst h <;> simp [List.filterMap]
+
+/-- … hence leaves no parameter without influence behind, whatever the parameterisation of the model
+    (clearance/volume, rate constants, anything). -/
+theorem removePeripheral_no_new_dead (m : PModel) (toP fromP : Nat) :
+    ∀ p ∈ (removePeripheral m toP fromP).dead, p ∈ m.dead :=
+  removeByCode_no_new_dead m _ _ (removePeripheral_symbols_cover toP fromP)
+
+/-- Undo on the ledger: adding sites with fresh ids and fresh parameters and removing them again, with
+    `symbols` containing the new parameters and only such old ones as an old site still reads, restores
+    sites and parameters exactly. -/
+theorem add_remove_restores (m : PModel) (new : List Site) (ps symbols : List Nat)
+    (hid : ∀ s ∈ m.sites, s.id ∉ new.map (·.id))
+    (hfresh : ∀ p ∈ ps, p ∈ symbols ∧ PModel.readBy m.sites p = false)
+    (hold : ∀ p ∈ m.params, p ∈ symbols → PModel.readBy m.sites p = true) :
+    (m.addSites new ps).removeSites (new.map (·.id)) symbols = m := by
+  have hsites : (m.sites ++ new).filter (fun s => s.id ∉ new.map (·.id)) = m.sites := by
+    rw [List.filter_append]
+    have h1 : m.sites.filter (fun s => s.id ∉ new.map (·.id)) = m.sites :=
+      List.filter_eq_self.mpr (fun s hs => by simpa using hid s hs)
+    have h2 : new.filter (fun s => s.id ∉ new.map (·.id)) = [] :=
+      List.filter_eq_nil_iff.mpr (fun s hs => by simp; exact ⟨s, hs, rfl⟩)
+    rw [h1, h2, List.append_nil]
+  obtain ⟨sites, params⟩ := m
+  simp only [PModel.addSites, PModel.removeSites, hsites, PModel.mk.injEq, true_and]
+  rw [List.filter_append]
+  have h1 : params.filter (fun p => decide (p ∉ symbols ∨ PModel.readBy sites p = true)) = params :=
+    List.filter_eq_self.mpr (fun p hp => by
+      by_cases hs : p ∈ symbols
+      · simp [hold p hp hs]
+      · simp [hs])
+  have h2 : ps.filter (fun p => decide (p ∉ symbols ∨ PModel.readBy sites p = true)) = [] :=
+    List.filter_eq_nil_iff.mpr (fun p hp => by
+      have := hfresh p hp
+      simp [this.1, this.2])
+  rw [h1, h2, List.append_nil]
+
+/-- Why the clause needs *both* flows: with rate constants (elimination reads K, central→peripheral reads
+    KCP, peripheral→central reads KPC) a clean-up from the flow back only leaves KCP behind without influence;
+    with clearance and volume (QP/V, QP/VP) the flow back alone happens to suffice. -/
+theorem removeSites_uncovered_leaks :
+    let rc : PModel := ⟨[⟨0, [10]⟩, ⟨1, [11]⟩, ⟨2, [12]⟩], [10, 11, 12]⟩
+    let cv : PModel := ⟨[⟨0, [20, 21]⟩, ⟨1, [22, 21]⟩, ⟨2, [22, 23]⟩], [20, 21, 22, 23]⟩
+    (rc.removeByCode [1, 2] [2]).dead = [11] ∧ (rc.removeByCode [1, 2] [1, 2]).dead = [] ∧
+    (cv.removeByCode [1, 2] [2]).dead = [] := by decide
 
 /-! ## the MFL feature table (regenerated from the source on every run) -/
 
